@@ -98,12 +98,15 @@ PowScalarBase(c, y) == LET p == TFn2("pow", c, y.v) IN
 (*  [o |-> "bin", f]      both operands Evaluations (top = right operand) *)
 (*  [o |-> "binS", f, side, q]  scalar on side "L" or "R"                 *)
 (*  [o |-> "cmpd", f] / [o |-> "cmpdS", f, q]   compound assignment       *)
+(*  [o |-> "binSelf", f] / [o |-> "cmpdSelf", f]  x op x,  x op= x        *)
 Step(N, st, op) ==
     LET n == Len(st) IN
     CASE op.o = "var" -> Append(st, Var(N, op.i, op.q))
       [] op.o = "const" -> Append(st, Const(N, op.q))
       [] op.o = "un" -> [st EXCEPT ![n] = Unary(op.f, st[n])]
       [] op.o \in {"bin", "cmpd"} -> Append(SubSeq(st, 1, n - 2), Binary(op.f, st[n - 1], st[n]))
+      \* both operands are the same object:  x op x  /  x op= x
+      [] op.o \in {"binSelf", "cmpdSelf"} -> [st EXCEPT ![n] = Binary(op.f, st[n], st[n])]
       [] op.o \in {"binS", "cmpdS"} ->
             [st EXCEPT ![n] =
                 IF op.f = "pow" THEN (IF op.side = "R" THEN PowScalarExp(st[n], op.q) ELSE PowScalarBase(op.q, st[n]))
